@@ -306,3 +306,123 @@ Theorem C12_gap_flip_created : forall (HO : hops), cv_len32 HO ->
     = Ok (mkOb PostMem (root_hash HO data) (mkTree (blen HO data) bs) (spec_outboard HO true data bs)).
 Proof. exact gap_flip_created. Qed.
 Print Assumptions C12_gap_flip_created.
+
+(* ======== Gap audit (proofs in Proofs/GapBao.v, Proofs/GapStores.v) ========
+   - the outboard bytes written out explicitly: the blob's true pairs of the persisted nodes, in pre / post order;
+   - the last clause of the property: at block size 0 the pre-order outboard is bao's outboard (length prefix excluded).
+     The bao crate is outside the model; bao's outboard FORMAT is written down from the bao specification:
+       bao_outboard HO data = the parent nodes of the tree over the chunks of 1024 bytes of the content, in pre-order,
+       each node being cv(left) ++ cv(right); the tree over n > 1 chunks has a left subtree over the largest power of
+       two of chunks strictly below n (next_pow2 n / 2) and a right subtree over the rest (no chunks: that is the
+       combined encoding, see bao_slice in Props/C04.v);
+   - all creation entry points agree with each other (root, tree, bytes per ordering, every load). *)
+From BaoV Require Import Proofs.HistOb Proofs.GapBao Proofs.GapStores.
+From Coq Require Import Permutation.
+
+Theorem C03_bao_outboard_def : forall (HO : hops) (data : bytes HO),
+  bao_outboard HO data = bao_ob_rec HO 64 data 0 (nchunks (blen HO data)).
+Proof. exact bao_outboard_def. Qed.
+Print Assumptions C03_bao_outboard_def.
+
+Theorem C03_bao_ob_rec_step : forall (HO : hops) (f : nat) (data : bytes HO) (a b : N),
+  bao_ob_rec HO (S f) data a b =
+    if b - a <=? 1 then []
+    else cv HO data a (a + next_pow2 (b - a) / 2) false ++ cv HO data (a + next_pow2 (b - a) / 2) b false
+         ++ bao_ob_rec HO f data a (a + next_pow2 (b - a) / 2) ++ bao_ob_rec HO f data (a + next_pow2 (b - a) / 2) b.
+Proof. exact bao_ob_rec_eq. Qed.
+Print Assumptions C03_bao_ob_rec_step.
+
+Theorem C03_bao_ob_rec_0 : forall (HO : hops) (data : bytes HO) (a b : N), bao_ob_rec HO 0 data a b = [].
+Proof. exact bao_ob_rec_0. Qed.
+Print Assumptions C03_bao_ob_rec_0.
+
+Theorem C03_spec_outboard_bs0_is_bao : forall (HO : hops) (data : bytes HO),
+  spec_outboard HO false data 0 = bao_outboard HO data.
+Proof. exact spec_outboard_bs0_is_bao. Qed.
+Print Assumptions C03_spec_outboard_bs0_is_bao.
+
+(* every pre-order creation entry point at block size 0 stores bao's outboard; it is (chunks - 1) * 64 bytes *)
+Theorem C03_bs0_outboard_is_bao : forall (HO : hops), cv_len32 HO ->
+  forall (data : bytes HO), blen HO data <= 2 ^ 63 ->
+  create_sized HO PreIO data (blen HO data) 0
+    = Ok (mkOb PreIO (root_hash HO data) (mkTree (blen HO data) 0) (bao_outboard HO data)) /\
+  create_sized_fsm HO PreIO data (blen HO data) 0
+    = Ok (mkOb PreIO (root_hash HO data) (mkTree (blen HO data) 0) (bao_outboard HO data)) /\
+  pre_mem_create HO data 0
+    = Ok (mkOb PreMem (root_hash HO data) (mkTree (blen HO data) 0) (bao_outboard HO data)) /\
+  blen HO (bao_outboard HO data) = (nchunks (blen HO data) - 1) * 64.
+Proof. exact bs0_outboard_is_bao. Qed.
+Print Assumptions C03_bs0_outboard_is_bao.
+
+(* the outboard bytes for every block size, explicitly: for every node the crate persists, in pre / post order, the two
+   chaining values of the node's children (true_pair, Spec/EncSpec.v) *)
+Theorem C03_outboard_pairs : forall (HO : hops), cv_len32 HO ->
+  forall (data : bytes HO) (bs : N), blen HO data <= 2 ^ 63 -> bs <= 10 ->
+  forall post : bool,
+  spec_outboard HO post data bs =
+  concat (map (fun nd => fst (true_pair HO data nd) ++ snd (true_pair HO data nd))
+              (filter (sp_persisted (blen HO data) bs)
+                      (if post then sp_post_nodes (blen HO data) bs else sp_pre_nodes (blen HO data) bs))).
+Proof. exact spec_outboard_pairs. Qed.
+Print Assumptions C03_outboard_pairs.
+
+(* pre- and post-order outboards hold the same pairs, in a different order *)
+Theorem C03_outboard_same_pairs : forall (data_size bs : N), data_size <= 2 ^ 63 ->
+  Permutation (filter (sp_persisted data_size bs) (sp_pre_nodes data_size bs))
+              (filter (sp_persisted data_size bs) (sp_post_nodes data_size bs)).
+Proof. exact spec_outboard_same_pairs. Qed.
+Print Assumptions C03_outboard_same_pairs.
+
+(* all creation entry points agree: the streaming post-order writer gives the bytes of the post-order stores; any two
+   created stores (created_by: the six entry points) have the same root and tree, the same bytes when they have the same
+   ordering, and the same loads (sync = fsm) at every node of the tree whatever their kinds; init_from on a pre-sized
+   store gives what a fresh creation of that kind gives *)
+Theorem C03_creation_agree : forall (HO : hops), cv_len32 HO ->
+  forall (data : bytes HO) (bs : N), blen HO data <= 2 ^ 63 -> bs <= 10 ->
+  (outboard_post_order HO (mkTree (blen HO data) bs) data
+     = (Ok (root_hash HO data), spec_outboard HO true data bs, []) /\
+   outboard_post_order_fsm HO (mkTree (blen HO data) bs) data
+     = (Ok (root_hash HO data), spec_outboard HO true data bs, [])) /\
+  (forall ob1 ob2 : outboard HO, created_by HO data bs ob1 -> created_by HO data bs ob2 ->
+     ob_root ob1 = ob_root ob2 /\ ob_tree ob1 = ob_tree ob2 /\
+     (is_post (ob_k ob1) = is_post (ob_k ob2) -> ob_data ob1 = ob_data ob2) /\
+     (is_post (ob_k ob1) = true ->
+        outboard_post_order HO (mkTree (blen HO data) bs) data = (Ok (ob_root ob1), ob_data ob1, [])) /\
+     (forall nd, In nd (sp_pre_nodes (blen HO data) bs) ->
+        load_sync HO ob1 nd = load_sync HO ob2 nd /\ load_fsm HO ob1 nd = load_fsm HO ob2 nd /\
+        load_sync HO ob1 nd = load_fsm HO ob1 nd)) /\
+  (forall ob0 ob : outboard HO,
+     (ob_k ob0 = PreIO \/ ob_k ob0 = PostIO \/ ob_k ob0 = PreMem \/ ob_k ob0 = PostMem) ->
+     ob_tree ob0 = mkTree (blen HO data) bs ->
+     blen HO (ob_data ob0) = (sp_blocks (blen HO data) bs - 1) * 64 ->
+     created_by HO data bs ob -> ob_k ob = ob_k ob0 ->
+     init_from HO ob0 data = Ok ob /\ init_from_fsm HO ob0 data = Ok ob).
+Proof. exact creation_agree. Qed.
+Print Assumptions C03_creation_agree.
+
+(* "re-initialising an existing outboard", in full generality for the io-backed outboards: init_from (sync and fsm) on a
+   PreOrderOutboard / PostOrderOutboard whose byte vector holds ANYTHING of ANY length (empty: creation; a shorter or a
+   longer stale file): the first (blocks - 1) * 64 bytes become the blob's outboard, bytes beyond are kept (the crate
+   does not truncate the file: the resulting file is longer than (blocks - 1) * 64 exactly when the old one was), the
+   root is the blob's, and every node of the tree loads the blob's true pair / no pair, sync and fsm alike *)
+From BaoV Require Import Proofs.GapInit.
+Theorem C03_init_from_io_any : forall (HO : hops), cv_len32 HO ->
+  forall (data : bytes HO) (bs : N), blen HO data <= 2 ^ 63 -> bs <= 10 ->
+  forall ob0 : outboard HO, (ob_k ob0 = PreIO \/ ob_k ob0 = PostIO) -> ob_tree ob0 = mkTree (blen HO data) bs ->
+  exists ob, init_from HO ob0 data = Ok ob /\ init_from_fsm HO ob0 data = Ok ob /\
+    ob_k ob = ob_k ob0 /\ ob_tree ob = mkTree (blen HO data) bs /\ ob_root ob = root_hash HO data /\
+    take HO ((sp_blocks (blen HO data) bs - 1) * 64) (ob_data ob) = spec_outboard HO (is_post (ob_k ob0)) data bs /\
+    drop HO ((sp_blocks (blen HO data) bs - 1) * 64) (ob_data ob)
+      = drop HO ((sp_blocks (blen HO data) bs - 1) * 64) (ob_data ob0) /\
+    (blen HO (ob_data ob0) <= (sp_blocks (blen HO data) bs - 1) * 64 -> created_store HO data bs ob) /\
+    (forall nd, In nd (sp_pre_nodes (blen HO data) bs) ->
+       (sp_persisted (blen HO data) bs nd = true ->
+          load_sync HO ob nd = Ok (Some (true_pair HO data nd)) /\ load_fsm HO ob nd = Ok (Some (true_pair HO data nd))) /\
+       (sp_persisted (blen HO data) bs nd = false -> load_sync HO ob nd = Ok None /\ load_fsm HO ob nd = Ok None)).
+Proof. exact init_from_io_any_intact. Qed.
+Print Assumptions C03_init_from_io_any.
+
+(* is_post (Proofs/HistOb.v) *)
+Theorem C03_is_post_def : forall k : ob_kind, is_post k = match k with PostIO | PostMem => true | _ => false end.
+Proof. intro k. reflexivity. Qed.
+Print Assumptions C03_is_post_def.
